@@ -175,6 +175,13 @@ pub fn run_threads(plan: &Plan, image: &[u8], verbose: bool) -> Report {
     let mut facts = Facts::default();
     facts.evals = 1;
     let rp = ReaderPlan::default();
+    // ---- 0. siblings: two *different* sprites alive at the same time must not influence each
+    // other (anything shared between sprites and keyed too coarsely shows up here)
+    if plan.run % 3 == 0 {
+        if let Some(v) = sibling_phase(plan, image, &rp, &mut facts) {
+            return Report { violation: Some(v), facts };
+        }
+    }
     let la = catch_unwind(AssertUnwindSafe(|| load(image, Wrapper::Slice, &rp, None, false, false).0));
     let lb = catch_unwind(AssertUnwindSafe(|| load(image, Wrapper::Cursor, &rp, None, false, false).0));
     let (la, lb) = match (la, lb) {
@@ -687,7 +694,7 @@ pub fn stress_c16(ctx: &crate::props::Ctx, i: u64, threads: usize, iters: usize)
     let costs = costs_for(&base.map, COST_CAP);
     let (nl, nf) = (f.num_layers(), f.num_frames());
     let mut ops: Vec<Op> = Vec::new();
-    for fr in 0..nf.min(8) {
+    for fr in 0..nf.min(20) {
         ops.push(Op::FrameImage(fr));
         ops.push(Op::FrameInfo(fr));
         for la in 0..nl.min(4) {
@@ -790,4 +797,121 @@ pub fn profile_cells(ctx: &crate::props::Ctx, k: u64, out: &mut dyn std::io::Wri
         };
         let _ = writeln!(out, "{}:{} {}", k, j, line);
     }
+}
+
+/// A near-copy of `image`: the unfaulted base, the same file with a palette chunk type flipped
+/// between the two legacy encodings, with one enum field set to another valid code, or with one
+/// byte of a palette / pixel payload changed.
+fn sibling_of(plan: &Plan, image: &[u8], r: &mut Rng) -> (Vec<u8>, String) {
+    let m = format::walk(image);
+    let mut options: Vec<u8> = vec![3];
+    if !plan.edits.is_empty() {
+        options.push(0);
+    }
+    if m.chunks.iter().any(|c| c.ctype == 0x0004 || c.ctype == 0x0011) {
+        options.push(1);
+        options.push(1);
+    }
+    if m.fields.iter().any(|f| f.kind == format::Kind::Enum) {
+        options.push(2);
+    }
+    let mut b = image.to_vec();
+    match *r.pick(&options) {
+        0 => (plan.base.clone(), "the unfaulted base file".into()),
+        1 => {
+            let c = m.chunks.iter().find(|c| c.ctype == 0x0004 || c.ctype == 0x0011).unwrap();
+            let new = if c.ctype == 0x0004 { 0x0011u16 } else { 0x0004 };
+            format::put16(&mut b, c.off + 4, new);
+            (b, format!("legacy palette chunk type {:#06x} -> {:#06x}", c.ctype, new))
+        }
+        2 => {
+            let enums: Vec<&format::Field> = m.fields.iter().filter(|f| f.kind == format::Kind::Enum && f.width == 2).collect();
+            if enums.is_empty() {
+                return (plan.base.clone(), "the unfaulted base file".into());
+            }
+            let f = *r.pick(&enums);
+            let codes = [0u64, 1, 2, 3, 0x0004, 0x0011, 0x2004, 0x2005, 0x2006, 0x2007, 0x2019, 0x2020];
+            let v = *r.pick(&codes);
+            format::put(&mut b, f.off, f.width, v);
+            (b, format!("{}.{} = {:#x}", f.chunk, f.name, v))
+        }
+        _ => {
+            let pay: Vec<&format::Field> = m.fields.iter().filter(|f| matches!(f.name, "rgba" | "rgb" | "raw-pixels")).collect();
+            if let Some(f) = pay.first().map(|_| *r.pick(&pay)) {
+                let off = f.off + r.usize_below(f.width.max(1));
+                b[off] = b[off].wrapping_add(1 + r.below(60) as u8) & 0x3f;
+                (b, format!("one byte of {}.{} changed", f.chunk, f.name))
+            } else {
+                (plan.base.clone(), "the unfaulted base file".into())
+            }
+        }
+    }
+}
+
+fn obs(bytes: &[u8], rp: &ReaderPlan, costs: &Costs) -> Option<(AsepriteFile, String)> {
+    let l = catch_unwind(AssertUnwindSafe(|| load(bytes, Wrapper::Slice, rp, None, false, false).0)).ok()?;
+    let f = l.result.ok()?;
+    let d = match catch_unwind(AssertUnwindSafe(|| crate::exec::observe_digest(&f, costs))) {
+        Ok((d, _, _)) => format!("{:016x}", d),
+        Err(_) => {
+            let (loc, msg) = crate::exec::take_panic_pub();
+            format!("panic {} {}", loc.rsplit('/').next().unwrap_or(""), normalise(&msg))
+        }
+    };
+    Some((f, d))
+}
+
+fn sibling_phase(plan: &Plan, image: &[u8], rp: &ReaderPlan, facts: &mut Facts) -> Option<Violation> {
+    let mut r = Rng::sub(plan.seed ^ plan.run.rotate_left(11), "sibling");
+    let (sib, what) = sibling_of(plan, image, &mut r);
+    if sib == image {
+        return None;
+    }
+    let cx = costs_for(&format::walk(image), COST_CAP);
+    let cs = costs_for(&format::walk(&sib), COST_CAP);
+    // each alone (nothing else alive)
+    let x_alone = obs(image, rp, &cx).map(|(_, d)| d)?;
+    let s_alone = obs(&sib, rp, &cs).map(|(_, d)| d)?;
+    facts.probes.push("sibling-phase-executed".into());
+    let prop = plan.property.as_str();
+    let mk = |who: &str, alone: &str, together: &str, order: &str| {
+        Some(viol(
+            prop,
+            "nondeterministic",
+            "siblings",
+            "a sprite's observations depend on another, different sprite being alive",
+            format!("{}: alone {} ; {} {} ; sibling = {}", who, alone, order, together, what),
+        ))
+    };
+    // sibling alive while X is loaded and observed
+    {
+        let (s_keep, _) = obs(&sib, rp, &cs)?;
+        let (x_keep, x2) = obs(image, rp, &cx)?;
+        if x2 != x_alone {
+            return mk("the sprite", &x_alone, &x2, "loaded while its sibling was alive:");
+        }
+        let s2 = match catch_unwind(AssertUnwindSafe(|| crate::exec::observe_digest(&s_keep, &cs))) {
+            Ok((d, _, _)) => format!("{:016x}", d),
+            Err(_) => {
+                let _ = crate::exec::take_panic_pub();
+                s_alone.clone()
+            }
+        };
+        if s2 != s_alone && !s_alone.starts_with("panic") {
+            return mk("the sibling", &s_alone, &s2, "after the sprite was loaded next to it:");
+        }
+        drop(x_keep);
+        drop(s_keep);
+    }
+    // the other order
+    {
+        let (x_keep, _) = obs(image, rp, &cx)?;
+        let (s_keep, s3) = obs(&sib, rp, &cs)?;
+        if s3 != s_alone {
+            return mk("the sibling", &s_alone, &s3, "loaded while the sprite was alive:");
+        }
+        drop(s_keep);
+        drop(x_keep);
+    }
+    None
 }
